@@ -658,9 +658,8 @@ func (p *parser) parseLet() *Node {
 		v := p.match(tVariable)
 		p.match(tAssign)
 		e := p.expression(0)
-		if seen[v.text] {
-			p.gap("duplicate binding in let")
-		}
+		// a name bound twice in one let: which binding wins is not pinned, but only a
+		// reference to that very name depends on it (see EvalNode: such a reference abstains)
 		seen[v.text] = true
 		n.Keys = append(n.Keys, v.text)
 		n.Kids = append(n.Kids, e)
